@@ -8,8 +8,14 @@ from contracts.stores import StoreLib, PROFILES
 def main():
     cls = sys.argv[1]
     fns = sys.argv[2:]
-    lib = StoreLib()
-    prof = PROFILES[cls]
+    if ":" in cls:
+        libname, cls = cls.split(":")
+        sys.path.insert(0, os.path.join(os.path.dirname(os.path.abspath(__file__))))
+        import units as U
+        lib = U.get_lib(libname)
+    else:
+        lib = StoreLib()
+    prof = lib.profile(cls)
     ex = extract.load(prof["file"])
     for fn in fns or sorted(lib.contracts[cls]):
         con = lib.contracts[cls][fn]
